@@ -347,9 +347,10 @@ structure Types where
   datetimerange : Bool := false
 deriving DecidableEq, Repr, Inhabited
 
+/-- `__is_duration`: `is not None` tests (since fix b6d61daf1; before it, Python truthiness made `P0D` no duration) -/
 def isDuration (t : Timex) : Bool :=
-  truthyO t.years || truthyO t.months || truthyO t.weeks || truthyO t.days || truthyO t.hours ||
-    truthyO t.minutes || truthyO t.seconds
+  t.years.isSome || t.months.isSome || t.weeks.isSome || t.days.isSome || t.hours.isSome ||
+    t.minutes.isSome || t.seconds.isSome
 
 def isTime (t : Timex) : Bool := t.time.isSome
 
@@ -405,6 +406,21 @@ def addDays (d : Date) (k : Int) : R Date :=
   | some r => pure r
   | none => throw .overflowError
 
+/-- an `int` field (the integer arithmetic of `timex_date_add` / `timex_time_add` / `add_time` is modelled for `int`
+fields only: `None` is Python's TypeError, a `Decimal`/`float` field is `unmodelled`) -/
+def needInt : Option Num → R Int
+  | none => throw .typeError
+  | some (.int i) => pure i
+  | some _ => throw .unmodelled
+
+/-- `calendar.isleap` on any `int` -/
+def isLeapInt (y : Int) : Bool := y.fmod 4 == 0 && (y.fmod 100 != 0 || y.fmod 400 == 0)
+
+/-- `calendar.monthrange(y, m)[1]` for `1 ≤ m ≤ 12` -/
+def monthLen (y m : Int) : Int :=
+  if m = 2 then (if isLeapInt y then 29 else 28)
+  else if m = 4 ∨ m = 6 ∨ m = 9 ∨ m = 11 then 30 else 31
+
 def optAdd (a : Option Num) (b : Num) : R Num :=
   match a with
   | none => throw .typeError
@@ -437,25 +453,36 @@ def timexDateAdd (start duration : Timex) : R Timex := do
       let y ← optAdd start.year (duration.years.getD (.int 0))
       return { year := some y, month := start.month, dayOfMonth := start.dayOfMonth }
     if truthyO duration.months ∧ truthyO start.month then
-      let m ← optAdd start.month (duration.months.getD (.int 0))
-      return { year := start.year, month := some m, dayOfMonth := start.dayOfMonth }
+      -- fix 2eecbadfd: months carry into the year, the day is clamped to the month's length
+      let sm ← needInt start.month
+      let months : Int := sm - 1 + (duration.months.getD (.int 0)).toInt
+      let yr : Option Num ← match start.year with
+        | none => pure none
+        | some y => (y.add (.int (months.fdiv 12))).map some
+      let mo : Int := months.fmod 12 + 1
+      let yy : Int ← match yr with
+        | some v => if v.truthy then needInt (some v) else pure 2001
+        | none => pure 2001
+      let dom ← needInt start.dayOfMonth
+      return { year := yr, month := some (.int mo), dayOfMonth := some (.int (min dom (monthLen yy mo))) }
     return start
   return start
 
-/-- an `int` field (the arithmetic of `timex_time_add` is modelled for `int` hours/minutes only) -/
-def needInt : Option Num → R Int
-  | none => throw .typeError
-  | some (.int i) => pure i
-  | some _ => throw .unmodelled
-
-/-- `TimexHelpers.timex_time_add(start, duration)` -/
+/-- `TimexHelpers.timex_time_add(start, duration)` (since fix 0f14e3017 minutes carry into hours arithmetically
+and then go through the same day roll-over as hours) -/
 def timexTimeAdd (start duration : Timex) : R Timex := do
-  match duration.hours with
-  | some dh =>
+  if duration.hours.isSome ∨ duration.minutes.isSome then
     let r := start.clone
+    let r ← match duration.hours with
+      | some dh => do
+        let h ← needInt r.hour
+        pure (r.setHour (some (.int (h + dh.toInt))))
+      | none => do
+        let m ← needInt r.minute
+        let minute : Int := m + (duration.minutes.getD (.int 0)).toInt
+        let h ← needInt r.hour
+        pure ((r.setHour (some (.int (h + minute.fdiv 60)))).setMinute (some (.int (minute.fmod 60))))
     let h ← needInt r.hour
-    let h := h + dh.toInt
-    let r := r.setHour (some (.int h))
     if h > 23 then
       let days : Int := h.fdiv 24
       let r := r.setHour (some (.int (h.fmod 24)))
@@ -469,18 +496,7 @@ def timexTimeAdd (start duration : Timex) : R Timex := do
         return { r with dayOfWeek := some v }
       | none => return r
     else return r
-  | none =>
-    match duration.minutes with
-    | some dm =>
-      let r := start.clone
-      let m ← needInt r.minute
-      let m := m + dm.toInt
-      let r := r.setMinute (some (.int m))
-      if m > 50 then
-        let h ← optAdd r.hour (.int 1)
-        return (r.setHour (some h)).setMinute (some (.int 0))
-      else return r
-    | none => return start
+  else return start
 
 /-- `TimexHelpers.timex_datetime_add` -/
 def timexDatetimeAdd (start duration : Timex) : R Timex := do
@@ -505,9 +521,15 @@ def expandDatetimeRange (t : Timex) : R TimexRange := do
     | some y =>
       match t.month with
       | some m =>
-        let m1 ← m.add (.int 1)
-        return ⟨{ year := some y, month := some m, dayOfMonth := some (.int 1) },
-                { year := some y, month := some m1, dayOfMonth := some (.int 1) }, none⟩
+        -- fix 755e719dd: December ends on January 1st of the next year (before: month 13 of the same year)
+        if m.eqInt 12 then
+          let y1 ← y.add (.int 1)
+          return ⟨{ year := some y, month := some m, dayOfMonth := some (.int 1) },
+                  { year := some y1, month := some (.int 1), dayOfMonth := some (.int 1) }, none⟩
+        else
+          let m1 ← m.add (.int 1)
+          return ⟨{ year := some y, month := some m, dayOfMonth := some (.int 1) },
+                  { year := some y, month := some m1, dayOfMonth := some (.int 1) }, none⟩
       | none =>
         let y1 ← y.add (.int 1)
         return ⟨{ year := some y, month := some (.int 1), dayOfMonth := some (.int 1) },
@@ -520,13 +542,13 @@ def sXXXX : Str := [88, 88, 88, 88]
 def sWXX : Str := [87, 88, 88]
 
 def formatDuration (t : Timex) : Str :=
-  if truthyO t.years then 80 :: optStr t.years ++ [89]
-  else if truthyO t.months then 80 :: optStr t.months ++ [77]
-  else if truthyO t.weeks then 80 :: optStr t.weeks ++ [87]
-  else if truthyO t.days then 80 :: optStr t.days ++ [68]
-  else if truthyO t.hours then 80 :: 84 :: optStr t.hours ++ [72]
-  else if truthyO t.minutes then 80 :: 84 :: optStr t.minutes ++ [77]
-  else if truthyO t.seconds then 80 :: 84 :: optStr t.seconds ++ [83]
+  if t.years.isSome then 80 :: optStr t.years ++ [89]
+  else if t.months.isSome then 80 :: optStr t.months ++ [77]
+  else if t.weeks.isSome then 80 :: optStr t.weeks ++ [87]
+  else if t.days.isSome then 80 :: optStr t.days ++ [68]
+  else if t.hours.isSome then 80 :: 84 :: optStr t.hours ++ [72]
+  else if t.minutes.isSome then 80 :: 84 :: optStr t.minutes ++ [77]
+  else if t.seconds.isSome then 80 :: 84 :: optStr t.seconds ++ [83]
   else []
 
 def eq0 : Option Num → Bool
@@ -558,7 +580,8 @@ def formatDateRange (t : Timex) : Str :=
   else if t.month.isSome ∧ t.weekOfMonth.isSome ∧ t.dayOfWeek.isSome then
     sXXXX ++ 45 :: fixedFormat t.month 2 ++ 45 :: sWXX ++ 45 :: optStr t.weekOfMonth ++ 45 :: optStr t.dayOfWeek
   else if t.month.isSome ∧ t.weekOfMonth.isSome then
-    sXXXX ++ 45 :: fixedFormat t.month 2 ++ 45 :: sWXX ++ 45 :: optStr t.weekOfMonth
+    -- `XXXX-MM-Wnn`, the form the parser reads (fix 127911630; before: `XXXX-MM-WXX-n`, which no pattern accepts)
+    sXXXX ++ 45 :: fixedFormat t.month 2 ++ 45 :: 87 :: fixedFormat t.weekOfMonth 2
   else if truthyO t.month then sXXXX ++ 45 :: fixedFormat t.month 2
   else []
 
